@@ -24,6 +24,13 @@ type Env struct {
 	pkg   *types.Package
 	frame *Frame
 	qn    int
+	mode  int // 0 neutral, 1 assuming (register quantified facts), 2 proving (skolemise quantified goals)
+}
+
+// qfact is a universally quantified integer-range fact kept for engine-side instantiation.
+type qfact struct {
+	lo, hi *Term
+	inst   func(idx *Term) *Term
 }
 
 var untypedNil = types.Typ[types.UntypedNil]
@@ -456,7 +463,7 @@ func (e *Env) eval(x ast.Expr) (Val, error) {
 	case *ast.UnaryExpr:
 		switch t.Op {
 		case token.NOT:
-			b, err := e.evalBool(t.X)
+			b, err := e.neutral().evalBool(t.X)
 			if err != nil {
 				return Val{}, err
 			}
@@ -604,13 +611,26 @@ func zeroOfSort(d *Decls, s string, ty types.Type) *Term {
 	return mk(s, "zz_zero_"+sortTag(s))
 }
 
+func (e *Env) neutral() *Env {
+	if e.mode == 0 {
+		return e
+	}
+	c := *e
+	c.mode = 0
+	return &c
+}
+
 func (e *Env) evalBinary(t *ast.BinaryExpr) (Val, error) {
 	if t.Op == token.LAND || t.Op == token.LOR {
-		a, err := e.evalBool(t.X)
+		sub := e
+		if t.Op == token.LOR {
+			sub = e.neutral()
+		}
+		a, err := sub.evalBool(t.X)
 		if err != nil {
 			return Val{}, err
 		}
-		b, err := e.evalBool(t.Y)
+		b, err := sub.evalBool(t.Y)
 		if err != nil {
 			return Val{}, err
 		}
@@ -619,6 +639,7 @@ func (e *Env) evalBinary(t *ast.BinaryExpr) (Val, error) {
 		}
 		return Val{tOr(a, b), types.Typ[types.Bool]}, nil
 	}
+	e = e.neutral()
 	a, err := e.eval(t.X)
 	if err != nil {
 		return Val{}, err
@@ -681,6 +702,21 @@ func (e *Env) evalCall(c *ast.CallExpr) (Val, error) {
 	if id, ok := c.Fun.(*ast.Ident); ok {
 		name = id.Name
 	}
+	if se, ok := c.Fun.(*ast.SelectorExpr); ok {
+		// pkg.macro(...) / pkg.specfun(...): spec names are global, the qualifier is documentation
+		if id, ok := se.X.(*ast.Ident); ok {
+			if _, isVar := e.vars[id.Name]; !isVar && !e.hasName(id.Name) && e.findPackage(id.Name) != nil {
+				n := se.Sel.Name
+				if _, ok := e.v.C.Macros[n]; ok {
+					name = n
+				} else if _, ok := e.v.C.SpecFuns[n]; ok {
+					name = n
+				} else if _, ok := e.v.C.GhostMaps[n]; ok {
+					name = n
+				}
+			}
+		}
+	}
 	switch name {
 	case "old":
 		if e.old == nil {
@@ -690,7 +726,7 @@ func (e *Env) evalCall(c *ast.CallExpr) (Val, error) {
 		c2.st = e.old
 		return c2.eval(c.Args[0])
 	case "zz_imp":
-		a, err := e.evalBool(c.Args[0])
+		a, err := e.neutral().evalBool(c.Args[0])
 		if err != nil {
 			return Val{}, err
 		}
@@ -700,11 +736,11 @@ func (e *Env) evalCall(c *ast.CallExpr) (Val, error) {
 		}
 		return Val{tImp(a, b), boolT}, nil
 	case "zz_iff":
-		a, err := e.evalBool(c.Args[0])
+		a, err := e.neutral().evalBool(c.Args[0])
 		if err != nil {
 			return Val{}, err
 		}
-		b, err := e.evalBool(c.Args[1])
+		b, err := e.neutral().evalBool(c.Args[1])
 		if err != nil {
 			return Val{}, err
 		}
@@ -763,6 +799,12 @@ func (e *Env) evalCall(c *ast.CallExpr) (Val, error) {
 			return Val{}, err
 		}
 		return Val{e.v.implementsPred(e.st, a.T, ty), boolT}, nil
+	case "tid":
+		ty, err := e.resolveType(c.Args[0])
+		if err != nil {
+			return Val{}, err
+		}
+		return Val{e.v.D.typeID(e.v.substT(ty)), intT}, nil
 	case "dyn":
 		a, err := e.eval(c.Args[0])
 		if err != nil {
@@ -820,6 +862,39 @@ func (e *Env) evalCall(c *ast.CallExpr) (Val, error) {
 				return Val{}, err
 			}
 			q := mk("Int", qv)
+			if name == "forall" && e.mode == 2 {
+				// proving a universally quantified goal: skolemise and instantiate the known quantified facts there
+				sk := e.v.Y.fresh(e.v.D, "sk_"+id.Name, "Int")
+				for _, qf := range e.st.qfacts {
+					e.st.assume(qf.inst(sk))
+				}
+				c2.vars[id.Name] = Val{sk, intT}
+				c2.mode = 0
+				body, err := c2.evalBool(c.Args[3])
+				if err != nil {
+					return Val{}, err
+				}
+				return Val{tImp(tAnd(tCmp("<=", lo.T, sk), tCmp("<", sk, hi.T)), body), boolT}, nil
+			}
+			if name == "forall" && e.mode == 1 {
+				snap := e.st.snapshot()
+				base := e.child()
+				base.st = snap
+				base.mode = 0
+				bodyX := c.Args[3]
+				varName := id.Name
+				loT, hiT := lo.T, hi.T
+				e.st.qfacts = append(e.st.qfacts, qfact{lo: loT, hi: hiT, inst: func(idx *Term) *Term {
+					b2 := base.child()
+					b2.vars[varName] = Val{idx, intT}
+					body, err := b2.evalBool(bodyX)
+					if err != nil {
+						return tTrue
+					}
+					return tImp(tAnd(tCmp("<=", loT, idx), tCmp("<", idx, hiT)), body)
+				}})
+			}
+			c2.mode = 0
 			c2.vars[id.Name] = Val{q, intT}
 			body, err := c2.evalBool(c.Args[3])
 			if err != nil {
@@ -1074,6 +1149,13 @@ func (e *Env) evalLocs(x ast.Expr) ([]modLoc, error) {
 		}
 	}
 	if c, ok := x.(*ast.CallExpr); ok {
+		if se, ok := c.Fun.(*ast.SelectorExpr); ok {
+			if pid, ok := se.X.(*ast.Ident); ok && e.findPackage(pid.Name) != nil {
+				if _, isVar := e.vars[pid.Name]; !isVar {
+					c = &ast.CallExpr{Fun: se.Sel, Args: c.Args}
+				}
+			}
+		}
 		if id, ok := c.Fun.(*ast.Ident); ok {
 			switch id.Name {
 			case "when":
@@ -1093,6 +1175,38 @@ func (e *Env) evalLocs(x ast.Expr) ([]modLoc, error) {
 					}
 				}
 				return locs, nil
+			case "valueof":
+				// the value a boxed pointer points to: precise when the box is syntactic, otherwise under()
+				p, err := e.eval(c.Args[0])
+				if err != nil {
+					return nil, err
+				}
+				if strings.HasPrefix(p.T.Op, "zz_box_Ptr") && len(p.T.Args) == 2 {
+					if ty := e.v.D.typeOfID(p.T.Args[0]); ty != nil {
+						if pt, ok := ty.Underlying().(*types.Pointer); ok {
+							var out []modLoc
+							for _, l := range e.v.leaves(p.T.Args[1], pt.Elem()) {
+								out = append(out, modLoc{kind: "exact", key: heapKeyForSort(l.sort), addr: l.addr, sort: l.sort, typ: l.typ})
+							}
+							return out, nil
+						}
+					}
+				}
+				pt := p.T
+				if pt.Sort == "Iface" {
+					pt = mk("Ptr", e.v.D.unboxFn("Ptr"), pt)
+				}
+				return []modLoc{{kind: "under", base: pt}}, nil
+			case "under":
+				p, err := e.eval(c.Args[0])
+				if err != nil {
+					return nil, err
+				}
+				pt := p.T
+				if pt.Sort == "Iface" {
+					pt = mk("Ptr", e.v.D.unboxFn("Ptr"), pt)
+				}
+				return []modLoc{{kind: "under", base: pt}}, nil
 			case "anyelems":
 				if sid, ok := c.Args[0].(*ast.Ident); ok {
 					return []modLoc{{kind: "anyelems", key: heapKeyForSort(sid.Name), sort: sid.Name}}, nil
